@@ -431,7 +431,10 @@ func (r Wrapper) introspectAccessToken(input string) (*ExtendedTokenIntrospectio
 	}
 
 	if token.InputDescriptorConstraintIdMap != nil {
-		for _, reserved := range []string{"iss", "sub", "exp", "iat", "active", "client_id", "scope"} {
+		// all members of the introspection response (and other registered RFC7662 names) are reserved:
+		// additional properties are marshalled last and would override them.
+		for _, reserved := range []string{"iss", "sub", "exp", "iat", "active", "client_id", "scope",
+			"aud", "cnf", "vps", "presentation_definitions", "presentation_submissions", "nbf", "jti", "token_type", "username"} {
 			if _, isReserved := token.InputDescriptorConstraintIdMap[reserved]; isReserved {
 				return nil, fmt.Errorf("IntrospectAccessToken: InputDescriptorConstraintIdMap contains reserved claim name: %s", reserved)
 			}
